@@ -54,7 +54,9 @@ CONSTANTS
   \* @type: Set(Str);
   MalWithHash,    \* the subset of MalKinds whose payload still carries a sha256Hash
   \* @type: Set(Str);
-  BadVers         \* version values other than 1 ("2", "0", "absent", ...)
+  BadVers,        \* version values other than 1 ("2", "0", "absent", ...)
+  \* @type: Bool;
+  History         \* TRUE: maintain the history variable `sent` (bigger state space)
 
 NoText == ""      \* absent or empty query string
 None   == "-"     \* nothing handed to the executor / Get missed / unused request field
@@ -73,6 +75,7 @@ ASSUME ConstOK ==
   /\ Caps \subseteq Nat \ {0} /\ Caps # {}
   /\ MalWithHash \subseteq MalKinds
   /\ "1" \notin BadVers
+  /\ History \in BOOLEAN
 
 VARIABLES
   \* @type: Str;
@@ -126,6 +129,7 @@ CacheAfterAdd(k, v) == [h \in DomAfterAdd(k) |-> IF h = k THEN v ELSE cache[h]]
 (* parses and validates params.Query, whatever put it there.               *)
 ExecClass(t) == IF t = NoText THEN "noop" ELSE IF t \in Valid THEN "data" ELSE "parse"
 
+Record(h, t) == sent' = (IF History THEN sent \cup {<<h, t>>} ELSE sent)
 Respond(r, submit, class, ops) == act' = r /\ out' = Out(submit, class, ops)
 NoCacheOp == UNCHANGED <<cache, order>>
 Frame     == UNCHANGED <<kind, cap>>
@@ -174,7 +178,7 @@ HashOnlyMiss(h) ==
 TextHashMismatch(t, h) ==
   /\ HashOf[t] # h
   /\ Respond(Req(t, "pq", "1", h, None), None, "mismatch", NoOps)
-  /\ sent' = sent \cup {<<h, t>>}
+  /\ Record(h, t)
   /\ NoCacheOp /\ Frame
 
 \* ... then store (also when the text will turn out not to parse: the store
@@ -183,7 +187,7 @@ TextHashOK(t) ==
   /\ Respond(Req(t, "pq", "1", HashOf[t], None), t, ExecClass(t), <<OpAdd(HashOf[t], t)>>)
   /\ cache' = CacheAfterAdd(HashOf[t], t)
   /\ order' = OrderAfterAdd(HashOf[t])
-  /\ sent' = sent \cup {<<HashOf[t], t>>}
+  /\ Record(HashOf[t], t)
   /\ Frame
 
 MalHashes(m) == IF m \in MalWithHash THEN Hashes ELSE {None}
@@ -199,10 +203,12 @@ Next ==
   \/ \E t \in Texts : TextHashOK(t)
 
 \* The action a given request record takes (used by the trace specification).
+\* @type: ({ text: Str, ext: Str, ver: Str, hash: Str, mal: Str }) => Bool;
 ReqOK(r) ==
   /\ r.text \in AnyText
   /\ r.ext \in {"none", "null", "undecodable", "malformed", "pq"}
   /\ r.hash \in Hashes \cup {None}
+\* @type: ({ text: Str, ext: Str, ver: Str, hash: Str, mal: Str }) => Bool;
 Step(r) ==
   /\ ReqOK(r)
   /\ \/ r.ext \in {"none", "null"} /\ TextOnly(r.text, r.ext)
@@ -234,14 +240,14 @@ Spec == Init /\ [][Next]_vars
 Bound == \A h \in DOMAIN cache : cache[h] \in Texts /\ HashOf[cache[h]] = h
 
 \* Everything in the cache was sent by some client together with that hash.
-WasSent == \A h \in DOMAIN cache : <<h, cache[h]>> \in sent
+WasSent == History => \A h \in DOMAIN cache : <<h, cache[h]>> \in sent
 
 \* The LRU bookkeeping is consistent (implementation level).
 LruOK ==
   /\ kind = "map" => order = <<>>
   /\ kind = "lru" =>
        /\ Len(order) <= cap
-       /\ {order[i] : i \in 1..Len(order)} = DOMAIN cache
+       /\ {order[i] : i \in DOMAIN order} = DOMAIN cache
        /\ Cardinality(DOMAIN cache) = Len(order)
 
 TypeOK ==
@@ -251,8 +257,10 @@ TypeOK ==
   /\ \A h \in DOMAIN cache : cache[h] \in Texts
   /\ sent \subseteq Hashes \X Texts
 
+\* @type: ({ text: Str, ext: Str, ver: Str, hash: Str, mal: Str }) => Bool;
 WellFormedV1(r) == r.ext = "pq" /\ r.ver = "1"
 \* the only request form that may register: version 1, text present, hash = H(text)
+\* @type: ({ text: Str, ext: Str, ver: Str, hash: Str, mal: Str }) => Bool;
 Registers(r) == WellFormedV1(r) /\ r.text # NoText /\ r.hash = HashOf[r.text]
 
 \* (1) a hash-only request executes exactly cache[h], or is answered PersistedQueryNotFound
@@ -264,7 +272,7 @@ PHashOnly ==
 \* ... and that text was previously sent together with that same hash, and hashes to it
 PHistory ==
   (WellFormedV1(act') /\ act'.text = NoText /\ out'.submit # None) =>
-     /\ <<act'.hash, out'.submit>> \in sent
+     /\ (History => <<act'.hash, out'.submit>> \in sent)
      /\ HashOf[out'.submit] = act'.hash
 
 \* (2) a request whose text does not match its hash is rejected, executes
